@@ -27,8 +27,16 @@ pub struct C11 {
     pub ctx: Ctx,
 }
 
-/// The scanner's own look-ahead (`cur` + peek stash) that a yield may be ahead of the token end.
-pub const LOOKAHEAD: usize = 8;
+/// The scanner's own look-ahead (`cur` + one stashed peek) that a yield may be ahead of the end of
+/// the first token after the row. 2 is the largest value the unchanged tree ever shows (reported
+/// on every run as `max:lazy-rows bytes consumed beyond …`); the first version of this check
+/// allowed 8, which let a decoder that reads 3 bytes too far pass (seeded C11-6).
+pub const LOOKAHEAD: usize = 2;
+
+thread_local! {
+    /// largest number of bytes any yield was ahead of the end of the first token after its row
+    static OVERSHOOT: std::cell::Cell<usize> = const { std::cell::Cell::new(0) };
+}
 
 /// Row marks of a top-level grid computed by a tokenizer that shares no code with the library:
 /// (offset just after the column line, [offset just after each row's line terminator]).
@@ -280,6 +288,9 @@ pub fn run_case(case: &Case) -> Outcome {
         }
     });
     out.steps = ticks;
+    if scenario == "lazy-rows" {
+        out.probes.push(("max:lazy-rows bytes consumed beyond the first token after a yielded row", OVERSHOOT.with(|o| o.replace(0)) as u64));
+    }
     let rendered = match caught {
         Caught::Done(Ok((s, accepted))) => {
             out.accepted = accepted;
@@ -489,7 +500,9 @@ fn lazy_rows(case: &Case, doc: &[u8], plan: &ReadPlan) -> Result<(String, bool),
             rows.push(canon(&Value::make_dict(d.clone())));
             let delivered = stats.delivered.get();
             if let Some(le) = line_ends.get(k) {
-                let bound = first_token_end_after(doc, *le) + LOOKAHEAD;
+                let tok_end = first_token_end_after(doc, *le);
+                OVERSHOOT.with(|o| o.set(o.get().max(delivered.saturating_sub(tok_end.min(len)))));
+                let bound = tok_end + LOOKAHEAD;
                 if delivered > bound.min(len) && worst.is_none() {
                     worst = Some((k, delivered, bound));
                 }
